@@ -66,7 +66,21 @@ _FSR = ("the indicator created by ObjectiveMinimizeFlowtimeSingleResource is onl
         "a new encoding of the min/max over the tasks inside the interval")
 _FSR_IN = ("worker w0 with t0 (fixed 2), t1 (variable 1..2), t2 (fixed 1, start >= 3), horizon 7, "
            "ObjectiveMinimizeFlowtimeSingleResource(resource=w0), SchedulingSolver(max_iter=1): reported 4, schedule spans 3")
+_SOC = ("a SelectWorkers may list CumulativeWorkers (resource.py expands them into _list_of_workers, which nothing uses): "
+        "add_required_resource then stores the busy interval on the CumulativeWorker object itself instead of its elementary "
+        "workers, so the capacity of a cumulative worker chosen through a selection is never enforced, and the task lists the "
+        "cumulative worker among its assigned resources while solution.resources has no assignment for it. The repository's own "
+        "test test_cumulative_select_worker_1 builds such a problem. Repair needs the selection to be propagated to the "
+        "elementary workers (not a small change)")
+_SOC_IN = ("CumulativeWorker cu(size=2), Worker w0; three fixed tasks of duration 2 on horizon 3, each requiring "
+           "SelectWorkers([cu, w0], 1): all three are placed at [0,2] on cu (3 > size 2), and solution.resources['cu'].assignments is empty")
 OPEN = [
+    {"property": "C02", "key": "selection-over-cumulative-worker", "where": "processscheduler/task.py add_required_resource (SelectWorkers branch) / resource.py SelectWorkers",
+     "match": {"clause": "C02.*", "direction": "admitted-invalid", "features": {"selection_over_cumulative": True}},
+     "minimal_input": _SOC_IN, "description": _SOC},
+    {"property": "C11", "key": "selection-over-cumulative-worker", "where": "processscheduler/solver.py build_solution / task.py add_required_resource",
+     "match": {"clause": "C11.*", "features": {"selection_over_cumulative": True}},
+     "minimal_input": _SOC_IN, "description": _SOC},
     {"property": "C07", "key": "flowtime-single-resource-indicator-is-an-upper-bound", "where": "processscheduler/objective.py ObjectiveMinimizeFlowtimeSingleResource",
      "match": {"clause": "C07.value_ne_definition", "direction": "wrong-value", "features": {"objective": "FlowtimeSingleResource"}},
      "minimal_input": _FSR_IN, "description": _FSR},
